@@ -137,3 +137,10 @@ package ociregistry
 
 //@ func ErrorSeq$1
 //@   ensures[yields-exactly-the-error] calls == [yield(_, err)]
+
+// ---------------------------------------------------------------------------
+// Error rendering (C07 proves these; C06 uses them).
+
+//@ func WriteError
+//@   requires w != nil && err != nil
+//@   modifies nothing
